@@ -73,3 +73,17 @@ PROPS["C09"] = {
                    "and the real lookup_opcode/get bodies are proved against them through the closure they pass to find().",
     "assumptions": [],
 }
+
+PROPS["C05"] = {
+    "title": "Loader accepts exactly well-bracketed function/block structure",
+    "units": {"quick": ["loader", "reflect"], "thorough": ["loader", "reflect"]},
+    "only_items": {"reflect": [r"grammar::reflect::"]},
+    "level": "proof",
+    "technique": "Verus contract on the extracted Loader::consume_instruction/finalize: whole-state equality with the bracket automaton of the statement, representation invariant, acceptance==well-bracketedness lemma by induction",
+    "design_ref": "DESIGN.md §4 C05",
+    "explanation": "consume_instruction, finalize, consume_header, new, module and the if_ret_err! macro are extracted verbatim; the "
+                   "postcondition is equality of the whole abstract loader state with a spec automaton written from the statement "
+                   "(so exactly one section/function/block receives the instruction), under a representation invariant that carries "
+                   "the statement's success clauses; a pure lemma shows the automaton accepts exactly the well-bracketed sequences.",
+    "assumptions": [],
+}
